@@ -3,11 +3,12 @@ pub mod chunker;
 pub mod flight;
 pub mod session;
 pub mod shard;
+pub mod xorb;
 
 use crate::core::Engine;
 
 pub fn all() -> Vec<&'static dyn Engine> {
-    vec![&chunker::ChunkerEngine, &session::SessionEngine, &flight::FlightEngine, &cache::CacheEngine, &shard::ShardEngine]
+    vec![&chunker::ChunkerEngine, &session::SessionEngine, &flight::FlightEngine, &cache::CacheEngine, &shard::ShardEngine, &xorb::XorbEngine]
 }
 
 pub fn for_property(id: &str) -> Option<&'static dyn Engine> {
